@@ -154,7 +154,7 @@ func firstTokRisky(t string) bool {
 	case "-", "+", "^", "++", "--", "*", "/", "%", "&", "|", "<", ">", "=", ":":
 		return true
 	}
-	return false
+	return strings.HasPrefix(t, "-") // the smallest integer literal carries its sign
 }
 
 // stmts prints a statement list with sound separators.
@@ -178,9 +178,7 @@ func (p *printer) stmts(stmts []*Node) {
 		lineComment := s.K == KComment && strings.HasPrefix(s.S, "//")
 		switch {
 		case lineComment:
-			if firstTokRisky(nextFirst) {
-				p.emit(";")
-			}
+			// a line comment ends with its line and is a complete statement: nothing to separate
 		case firstTokRisky(nextFirst):
 			p.emit(";")
 		case p.sep != nil && p.sep(3) == 0:
